@@ -230,13 +230,14 @@ variable [LE K] [DecidableLE K] [DecidableEq K]
 
 mutual
 /-- every node: the first child carries the node's point, the other children store their true distance to it,
-    `max_dist` bounds the distance to every point below, scales increase towards the leaves -/
+    `max_dist` bounds the distance to every point below (and is not below `δ p p = 0`), scales increase
+    towards the leaves -/
 def wfNode (δ : Nat → Nat → K) : CNode K → Bool
   | .mk p m _ s cs =>
     (match cs with
      | [] => true
      | c0 :: rest => c0.p == p && rest.all (fun c => c.parentDist == δ p c.p)) &&
-    (CNode.leavesL cs).all (fun x => decide (δ p x ≤ m)) &&
+    decide (δ p p ≤ m) && (CNode.leavesL cs).all (fun x => decide (δ p x ≤ m)) &&
     cs.all (fun c => s < c.scale || c.isLeaf) &&
     wfNodeL δ cs
 def wfNodeL (δ : Nat → Nat → K) : List (CNode K) → Bool
